@@ -110,7 +110,7 @@ def run(chk):
                 if kinds & {"registry", "slot"}:
                     checked += 1
                     if must is None:
-                        must = Must(fn, None, edge)
+                        must = Must(fn, None, edge, resolve_locals=True)
                     path = fn.access_path(fn.strip(x["args"][0]))
                     ok = ("inactive", path) in (must.before(i) or frozenset())
                     how = "is_active() false edge"
